@@ -47,7 +47,7 @@ def run(replay=None):
     thorough = chk.tier == 'thorough'
     chk.cov['rule'] = (
         'for every serialisable stack of the catalogue and several fields each: (a) EVERY proper prefix of the dump (complete enumeration of truncation '
-        'points, = a stream that starts failing at any read) is loaded through a length-limited stream buffer; (b) every magic / tag word position (taken '
+        'points, = a stream that starts failing at any read) is loaded through a length-limited stream buffer, once with the default stream state and once with an exception mask set on the caller\'s stream (failbit|badbit, eofbit or badbit, so that the stream itself throws at the short read); (b) every magic / tag word position (taken '
         'from the Coq segment list dump_segs) is replaced by sampled values (+-1, bit flips, the other magic, other layers\' tags, 0, ~0) and the width word '
         'by values other than 4 / 8 and by the other width; (c) every dump is loaded into every other stack type of the catalogue. '
         'Oracle: the outcome must be an exception wherever the model reader says Bad (theorems C08_prefix_rejected / C08_flip_rejected say it does for (a), (b)); '
@@ -120,6 +120,9 @@ def run(replay=None):
             continue
         hexs, toffs, woffs = dumps[i]
         add(n, f'truncs {hexs}', ('trunc', i), 'X')
+        if hexs and len(hexs) <= 2400:
+            # the same enumeration with an exception mask on the caller's stream (the stream itself throws at the short read)
+            add(n, f'truncs {hexs} {1 + i % 3}', ('trunc', i), 'X')
         for off in toffs:
             orig = get_u32(hexs, off)
             repl = {orig ^ 1, (orig + 1) & 0xFFFFFFFF, (orig - 1) & 0xFFFFFFFF, orig ^ 0x80000000, 0, 0xFFFFFFFF,
@@ -157,10 +160,11 @@ def run(replay=None):
                 a = impl[cfg].get(c[0], '')
                 if not a.startswith('T '):
                     hexs = c[2].split(' ')[1]
+                    mask = (' ' + c[2].split(' ')[2]) if len(c[2].split(' ')) > 2 else ''
                     nb = len(hexs) // 2
                     ks = sorted(set([0, 1, 3, 4, 7, 8, 9, 12, nb // 2, nb - 9, nb - 8, nb - 5, nb - 4, nb - 1]) & set(range(nb)))
                     for k in ks:
-                        extra.append((f'x{len(extra)}', c[1], f'load 1 {hexs} {k}', ('trunc1', c[3][1], k), 'X', cfg))
+                        extra.append((f'x{len(extra)}', c[1], f'load 1 {hexs} {k}{mask}', ('trunc1', c[3][1], k), 'X', cfg))
     xi = {}
     if extra:
         xlines = [f'{c[0]} {c[1]} {c[2]}' for c in extra]
